@@ -173,9 +173,9 @@ def _parse_driver_output(out, transcript):
             res["notes"].append(line)
         elif line.startswith("ISTAT"):
             d = dict(m.groups() for m in re.finditer(r"(\w+)=(\S+)", line))
-            st = res.setdefault("istat", {}).setdefault(d.get("name", "?"), {"cases": 0, "steps": 0, "vals": 0, "sigs": 0})
+            st = res.setdefault("istat", {}).setdefault(d.get("name", "?"), {"cases": 0, "steps": 0, "vals": 0, "sigs": 0, "exv": 0})
             st["cases"] += 1
-            for k in ("steps", "vals", "sigs"):
+            for k in ("steps", "vals", "sigs", "exv"):
                 st[k] += int(d.get(k, 0))
     return res
 
@@ -234,7 +234,7 @@ def run_driver(transcript, jobs=16):
         for nm, st in r.get("istat", {}).items():
             agg = res.setdefault("istat", {}).setdefault(nm, {"cases": 0, "steps": 0, "vals": 0, "sigs": 0})
             for k in st:
-                agg[k] += st[k]
+                agg[k] = agg.get(k, 0) + st[k]
         for k2, v in r["summary"].items():
             if isinstance(v, int):
                 res["summary"][k2] = res["summary"].get(k2, 0) + v
